@@ -61,7 +61,7 @@ class Oracle:
 
     # -- helpers ------------------------------------------------------------
     def _note(self, actor, op, path, owner):
-        self.history.append((len(self.history), actor, op, path, owner))
+        self.history.append((len(self.history), actor, op, path, '%#x' % owner if owner else owner))
 
     def tail(self, n=40):
         return [list(h) for h in self.history[-n:]]
